@@ -2262,6 +2262,7 @@ def _run(ctx, corr):
         "type and as repeater id) to both handlers, from a registered and an unknown peer and at 6 / 14 RDAC steps.  As RDAC "
         "identification fields: bodies whose strings / dmr_id are the record defaults and harvested literals, equal for two peers. "
         "12 % of the symbols of every second random history are drawn from these pools. "
+        " ROUND 6, READ-ONLY CALLS: observer-style calls found by introspection on the live objects (repr / str / len / bool / == / hash / copy / every attribute, debug(), get_* / is_* / has_* / match_* without auto-create, the log helpers, on every library object reachable) are interleaved into histories: the same history runs without and with them in fresh objects; each call must leave the deep picture of the objects, their class / module data and the stubs' counters unchanged, every answer, the final state and a final sweep through the whole catalogue (made, and itself checked, at the end of every such history) must be identical, and the model is driven with the history without the calls; reviewed exclusions (calls that advance by design) are listed in harness/ro_calls.py EXCLUDED. "
         "Distinct = distinct symbol sequence; non-trivial = at least one datagram dispatches"
     )
     ctx.trusted_base += [
